@@ -6,6 +6,7 @@ from ..engine.sym import is_sym
 from ..rules.world import STATE, DOT, REL, Shapes, eager_interp
 from . import c01
 from . import c03
+from ..rules import escape
 
 EXPLANATION = (
     "R1: Instruction.compile_insn is abstractly executed for every folded table row; the rel_address handed to operand j "
@@ -217,6 +218,7 @@ def run(ck):
     ck.run_rule("C04.R2", "relative / relative-deferred displacement words", 4, rule_R2)
     ck.run_rule("C04.R3", "branch/SOB displacement: accept set, parity, field value (cells over all integers)", 8, rule_R3)
     ck.run_rule("C04.R4", "bare numeric operands are local labels; compound operands: only a leading number", 6, rule_R4)
+    ck.run_rule("G11.res", "branch offsets and immediates that depend on later labels are forced with wait() before their bits are placed in the opcode word", 2, escape.rule_G11_results)
     ck.run_rule("C03.R7", "address arithmetic behind PC-relative targets (LinearPolynomial algebra)", 18, c03.rule_R7)
     from ..rules import thunks
     ck.run_rule("G1", "operand thunks read their own state: captured by value, never updated in place", 20, thunks.rule_G1)
